@@ -4,6 +4,7 @@ package proxy
 
 import (
 	"context"
+	"crypto/tls"
 	"sort"
 	"time"
 
@@ -33,6 +34,14 @@ func VerifC16NewPool(cfg *config.Config) *VerifC16Pool {
 		cleanupInterval: time.Duration(1 << 62),
 		cfg:             cfg,
 	}}
+}
+
+// VerifC16NewPoolTLS is VerifC16NewPool for the pool of a listener with a certificate source: the pool's
+// tlscfg is set, so that newConnection dials grpcs targets with transport credentials.
+func VerifC16NewPoolTLS(tlscfg *tls.Config, cfg *config.Config) *VerifC16Pool {
+	v := VerifC16NewPool(cfg)
+	v.p.tlscfg = tlscfg
+	return v
 }
 
 // Get is grpcConnectionPool.Get.
